@@ -400,7 +400,7 @@ def run(ctx):
     n = ctx.budget(320, 6000)
     chunks = 32
     with mp.Pool(16) as pool:
-        parts = pool.map(_load_chunk, [(ctx.seed * 7919 + c, n // chunks) for c in range(chunks)])
+        parts = lib.safe_map(pool, _load_chunk, [(ctx.seed * 7919 + c, n // chunks) for c in range(chunks)])
     nload = 0
     rejected = 0
     kinds = {}
